@@ -18,6 +18,9 @@ type Lexer struct {
 	headerStage int
 	// lastType is the type of the token returned last
 	lastType TokenType
+	// priceStage follows a P directive: 1 after the keyword, 2 after its date (the next word
+	// is the priced commodity, whatever its spelling)
+	priceStage int
 }
 
 const (
@@ -40,6 +43,14 @@ func NewLexer(input string) *Lexer {
 
 func (l *Lexer) Next() Token {
 	tok := l.next()
+	switch {
+	case tok.Type == TokenDirective && tok.Value == "P":
+		l.priceStage = 1
+	case l.priceStage == 1 && tok.Type == TokenDate:
+		l.priceStage = 2
+	default:
+		l.priceStage = 0
+	}
 	l.lastType = tok.Type
 	return tok
 }
@@ -137,6 +148,10 @@ func (l *Lexer) scanInLine() Token {
 
 	ch := l.peek()
 	r := l.peekRune()
+
+	if l.priceStage == 2 && ch != '\n' && ch != ';' && ch != '"' && !l.isCurrencySymbol(r) && !l.isDigit(ch) && !l.atCRLF() {
+		return l.scanPricedCommodity()
+	}
 
 	switch {
 	case ch == '\n':
@@ -374,6 +389,20 @@ func (l *Lexer) scanQuotedCommodity() Token {
 	}
 
 	return Token{Type: TokenCommodity, Value: value, Pos: startPos, End: l.position()}
+}
+
+// scanPricedCommodity scans the commodity named by a P directive: a word up to the next blank.
+func (l *Lexer) scanPricedCommodity() Token {
+	start := l.pos
+	startPos := l.position()
+	for l.pos < len(l.input) {
+		ch := l.peek()
+		if ch == ' ' || ch == '\t' || ch == '\n' || ch == ';' || l.atCRLF() {
+			break
+		}
+		l.advance()
+	}
+	return Token{Type: TokenCommodity, Value: l.input[start:l.pos], Pos: startPos, End: l.position()}
 }
 
 func (l *Lexer) scanAt() Token {
